@@ -1,6 +1,6 @@
 (* K-val and K-ops channels on the model. *)
 From Coq Require Import Strings.String.
-From BP7 Require Import Base.Prelude Base.Decimal Gen.Consts Model.Hex Model.Types Model.Encode Model.Decode Model.Validate Model.Ops Model.DtnTime Model.EidText Model.AdminRecord.
+From BP7 Require Import Base.Prelude Base.Decimal Gen.Consts Model.Hex Model.Types Model.Encode Model.Decode Model.Validate Model.Ops Model.DtnTime Model.EidText Model.AdminRecord Model.Api.
 From BP7 Require Import Run.Proto Run.BundleIO.
 
 Definition show_validity (b : bundle) : list byte :=
@@ -76,33 +76,34 @@ Definition query (m : ovf_mode) (clock : N) (b : bundle) : res (list byte) :=
              S_ "LTX"; show_bool ltx; S_ "TS"; show_bytes ts] ++ map acc eids)).
 
 (* one step: new bundle and the textual return value of the operation *)
-Definition step (m : ovf_mode) (clock : N) (b : bundle) (o : op) : res (list byte * bundle) :=
+Definition upd_fn := ovf_mode -> N -> eid -> N -> bundle -> res (bool * bundle).
+Definition step (upd : upd_fn) (m : ovf_mode) (clock : N) (b : bundle) (o : op) : res (list byte * bundle) :=
   match o with
   | OAdd c => Ok (S_ "-", add_canonical_block b c)
   | OSetPayload d => Ok (S_ "-", set_payload b d)
   | OSetPayloadBlock c => Ok (S_ "-", set_payload_block b c)
   | OSetCrc k => Ok (S_ "-", set_crc b k)
   | OSort => Ok (S_ "-", sort_canonicals b)
-  | OUpdate e n => do rb <- update_extensions m clock e n b; Ok (show_bool (fst rb), snd rb)
+  | OUpdate e n => do rb <- upd m clock e n b; Ok (show_bool (fst rb), snd rb)
   | OQuery => do q <- query m clock b; Ok (q, b)
   (* the lifetime Duration gets a sub-millisecond part: the model counts whole milliseconds (as_millis), nothing changes *)
   | OLifeNs n => if n <? 1000000 then Ok (S_ "-", b) else Err ERange
   end.
-Fixpoint run_steps (m : ovf_mode) (clock : N) (b : bundle) (ops : list op) : res (list (list byte) * bundle) :=
+Fixpoint run_steps (upd : upd_fn) (m : ovf_mode) (clock : N) (b : bundle) (ops : list op) : res (list (list byte) * bundle) :=
   match ops with
   | [] => Ok ([], b)
-  | o :: t => do rb <- step m clock b o;
-              do rest <- run_steps m clock (snd rb) t;
+  | o :: t => do rb <- step upd m clock b o;
+              do rest <- run_steps upd m clock (snd rb) t;
               Ok (join [S_ ";"; fst rb; show_bundle (snd rb)] :: fst rest, snd rest)
   end.
 Definition show_payload (b : bundle) : list byte :=
   match payload b with Some d => show_bytes d | None => S_ "NONE" end.
 
 (* OPS <clock_ms> <bundle> ; op ; op ... -> OK ; <ret> <bundle> ; ... FINAL <validity> PL <payload> RT T|F *)
-Definition finish_ops (m : ovf_mode) (clock : N) (b : bundle) (rest' : list tok) : list byte :=
+Definition finish_ops (upd : upd_fn) (m : ovf_mode) (clock : N) (b : bundle) (rest' : list tok) : list byte :=
   match parse_ops (S (length rest')) rest' with
   | Some (ops, []) =>
-    match run_steps m clock b ops with
+    match run_steps upd m clock b ops with
     | Ok (outs, bf) =>
       let '(bs, bf') := to_cbor bf in
       let rt := match from_cbor bs with Ok d => bundle_eqb d bf' | _ => false end in
@@ -113,7 +114,7 @@ Definition finish_ops (m : ovf_mode) (clock : N) (b : bundle) (rest' : list tok)
   | _ => bad_case
   end.
 (* the bundle is given either as `B ...` tokens or as `X x<bytes>` (decoded first: the receive path) *)
-Definition run_ops (m : ovf_mode) (args : list tok) : list byte :=
+Definition run_ops_with (upd : upd_fn) (m : ovf_mode) (args : list tok) : list byte :=
   match args with
   | c :: rest =>
     match get_N c with
@@ -123,14 +124,19 @@ Definition run_ops (m : ovf_mode) (args : list tok) : list byte :=
         if tok_is t "X" then
           match get_bytes xb with
           | Some bs => match from_cbor bs with
-                       | Ok b => finish_ops m clock b rest'
+                       | Ok b => finish_ops upd m clock b rest'
                        | Err _ => S_ "DECERR" | Panic _ => S_ "PANIC" end
           | None => bad_case
           end
-        else match parse_bundle rest with Some (b, rest'') => finish_ops m clock b rest'' | None => bad_case end
+        else match parse_bundle rest with Some (b, rest'') => finish_ops upd m clock b rest'' | None => bad_case end
       | _ => bad_case
       end
     | None => bad_case
     end
   | [] => bad_case
   end.
+Definition run_ops : ovf_mode -> list tok -> list byte := run_ops_with update_extensions.
+(* OPSA: the same line, with update_extensions as bundle.rs writes it (block selected, block-level operation applied in place:
+   Model/Api.v update_extensions_api, proved equal to update_extensions in Proofs/ApiProofs.v).  On the implementation side OPSA is
+   OPS: two models, written independently of each other, are compared with the same code. *)
+Definition run_opsa : ovf_mode -> list tok -> list byte := run_ops_with update_extensions_api.
